@@ -45,6 +45,7 @@ def cases(draw, tier):
             'normalized': draw(st.integers(0, 4)) == 0,
             'model_kind': draw(st.sampled_from(['tt', 'tt_str', 'py'])),
             'time_limit': draw(st.sampled_from([None, None, None, None, None, None, None, 60])),
+            'again': draw(st.integers(0, 3)) == 0,
             'realise': [[draw(st.integers(0, 60)), draw(st.integers(0, 60)), draw(st.integers(0, 60))] for _ in range(6)],
             'out_pick': [draw(st.integers(0, 60)) for _ in range(m)]}
     dck = draw(st.sampled_from(['none', 'none', 'cells', 'cells', 'column', 'row', 'all']))
@@ -323,17 +324,24 @@ def check_synthesis(case):
     desc = (f'n={n} m={m} G={G} basis={case["basis"]} normalized={case["normalized"]} table='
             f'{["".join("*" if (dcs[i] >> j) & 1 else str((cols[i] >> j) & 1) for j in range(W)) for i in range(m)]} constraints={applied}')
     verdict = None
-    try:
-        if case['time_limit']:
-            circ = finder.find_circuit(time_limit=case['time_limit'])
-            cls.add('time_limit')
-        else:
-            circ = finder.find_circuit()
-        verdict = 'found'
-    except sx.NoSolutionError:
-        verdict = 'none'
-    except sx.SolverTimeOutError:
-        return {'nt': False, 'cls': cls | {'inconclusive_timeout'}}
+    # the same finder may be asked more than once; every answer has to stand on its own (the last one is examined)
+    for attempt in range(2 if case.get('again') else 1):
+        previous = verdict
+        try:
+            if case['time_limit']:
+                circ = finder.find_circuit(time_limit=case['time_limit'])
+                cls.add('time_limit')
+            else:
+                circ = finder.find_circuit()
+            verdict = 'found'
+        except sx.NoSolutionError:
+            verdict = 'none'
+        except sx.SolverTimeOutError:
+            return {'nt': False, 'cls': cls | {'inconclusive_timeout'}}
+        if attempt:
+            cls.add('asked_twice')
+            if verdict != previous:
+                raise Violation('verdict_changes_on_repeat', f'{desc}: first find_circuit said {previous}, the second {verdict}')
     # get_cnf() is equisatisfiable with the verdict
     cnf = [list(c) for c in finder.get_cnf()]
     nv = max([abs(l) for c in cnf for l in c] + [0])
